@@ -110,6 +110,8 @@ def main(chk):
     if tuple(spec) != want_names:
       chk.violation(key, f'get_partition_spec {tuple(spec)}, specification {want_names}', case)
     base_names = tuple(list(names) + [None] * 0)
+    if len(names) != len(shape):
+      continue      # partially annotated variable: the names the body sees are its own short tuple (possibly padded), not compared
     if any(s is not None and len(s) != len(shape) for s in inside_apply) or \
        any(s is not None and tuple(x for x in s) != tuple(pad_names(names, k1, k2, outer, len(shape))) for s in inside_apply):
       chk.violation(key, f'inside the body (apply) the parameter carries names {set(inside_apply)}, expected {pad_names(names, k1, k2, outer, len(shape))} '
